@@ -14,6 +14,7 @@
 
 from __future__ import annotations
 
+import hashlib
 import json
 import logging
 import multiprocessing as mp
@@ -187,6 +188,76 @@ def _make_function(variant: int, ir_version: int):
     return ir.Function("fdom", f"F{variant}", overload, graph=g, attributes=attrs)
 
 
+def _annotate(n, cfg, *, spec: bool, stage, which: int = 0):
+    """shard (when asked and a named value of known rank >= 1 exists) and/or set the pipeline stage of n under cfg."""
+    cand = [v for v in list(n.outputs) + [x for x in n.inputs if x is not None] if v.name]
+    shaped = [v for v in cand if v.shape is not None and len(v.shape) >= 1]
+    try:
+        if spec and shaped:
+            v = shaped[which % len(shaped)]
+            n.shard(v, configuration=cfg, axis=0, num_shards=2, device_indices=(0, 1) if cfg.num_devices >= 2 else (0,), pipeline_stage=stage)
+        elif spec and cand:
+            n.shard(cand[which % len(cand)], configuration=cfg, axis=0, num_shards=2, pipeline_stage=stage)
+        elif stage is not None:
+            n.set_pipeline_stage(cfg, stage)
+    except Exception:  # noqa: BLE001 - an annotation the library refuses is simply not made
+        if stage is not None:
+            try:
+                n.set_pipeline_stage(cfg, stage)
+            except Exception:  # noqa: BLE001
+                pass
+
+
+def _decorate_devices(model: ir.Model, dv: int) -> None:
+    """Node device configurations: nodes with 0, 1, 2 and 3 entries, declared and dangling ones (configuration
+    removed from the model without cascade) mixed in both orders, with and without sharding specs and stages;
+    in the main graph, in a subgraph and in a model-local function.  Serialized from IR version 11 on."""
+    if dv == 0:
+        return
+    top = list(model.graph)
+    inner = [n for n in model.graph.all_nodes() if n.graph is not model.graph]
+    fnodes = [f[0] for f in model.functions.values() if len(f)]
+    n0 = top[0] if top else None
+    n1 = top[1] if len(top) > 1 else None
+    ns = inner[0] if inner else None
+    nf = fnodes[0] if fnodes else None
+    mesh = model.add_device_configuration("mesh", num_devices=2, device_names=("d0", "d1"))
+    pp = model.add_device_configuration("pp", num_devices=3) if dv in (2, 3, 4, 6, 7) else None
+    zz = model.add_device_configuration("zz", num_devices=1) if dv == 6 else None
+    if dv == 1:       # one declared entry: spec + stage; stage only
+        if n0: _annotate(n0, mesh, spec=True, stage=1)
+        if n1: _annotate(n1, mesh, spec=False, stage=0)
+        if ns: _annotate(ns, mesh, spec=True, stage=None)
+    elif dv == 2:     # two declared entries on one node
+        if n0: _annotate(n0, mesh, spec=True, stage=None); _annotate(n0, pp, spec=False, stage=2)
+        if n1: _annotate(n1, pp, spec=True, stage=0)
+        if nf: _annotate(nf, mesh, spec=True, stage=None); _annotate(nf, pp, spec=False, stage=1)
+    elif dv == 3:     # [declared(spec, stage), dangling(stage)], a node with only a dangling entry
+        if n0: _annotate(n0, mesh, spec=True, stage=1); _annotate(n0, pp, spec=False, stage=2)
+        if n1: _annotate(n1, pp, spec=False, stage=0)
+        if ns: _annotate(ns, mesh, spec=False, stage=0); _annotate(ns, pp, spec=True, stage=1)
+        if nf: _annotate(nf, mesh, spec=True, stage=None); _annotate(nf, pp, spec=False, stage=1)
+        model.remove_device_configuration("pp")
+    elif dv == 4:     # [dangling(spec, no stage), declared(stage)]
+        if n0: _annotate(n0, pp, spec=True, stage=None); _annotate(n0, mesh, spec=False, stage=0)
+        if ns: _annotate(ns, pp, spec=True, stage=2); _annotate(ns, mesh, spec=True, stage=None, which=1)
+        model.remove_device_configuration(pp)
+    elif dv == 5:     # only dangling entries, the model declares nothing any more
+        if n0: _annotate(n0, mesh, spec=True, stage=1)
+        if n1: _annotate(n1, mesh, spec=False, stage=3)
+        model.remove_device_configuration("mesh")
+    elif dv == 6:     # three entries: [dangling(stage), dangling(spec, stage), declared(stage)]
+        if n0: _annotate(n0, mesh, spec=False, stage=0); _annotate(n0, pp, spec=True, stage=1); _annotate(n0, zz, spec=False, stage=2)
+        if n1: _annotate(n1, zz, spec=True, stage=None); _annotate(n1, mesh, spec=True, stage=1, which=1)
+        model.remove_device_configuration("pp")
+        model.remove_device_configuration(mesh)
+    elif dv == 7:     # two specs (two values) under one declared entry next to a dangling one
+        if n0: _annotate(n0, mesh, spec=True, stage=None, which=0); _annotate(n0, mesh, spec=True, stage=1, which=1); _annotate(n0, pp, spec=True, stage=0)
+        if ns: _annotate(ns, pp, spec=False, stage=1); _annotate(ns, mesh, spec=False, stage=1)
+        if nf: _annotate(nf, pp, spec=True, stage=None); _annotate(nf, mesh, spec=False, stage=2)
+        model.remove_device_configuration("pp")
+
+
 def decorate(u: SerdeUniverse, k: int) -> ir.Model:
     """Wrap graph 1 in a model and attach leaf payloads; k selects the variant. Never changes what the
     abstract state observes (structure, value names/types/shapes/metadata keys, attribute names)."""
@@ -216,22 +287,7 @@ def decorate(u: SerdeUniverse, k: int) -> ir.Model:
         if v.type is not None and (vi + k) % 4 == 0:
             dt = v.type.dtype
             v.type = ir.OptionalType(ir.SequenceType(ir.TensorType(dt))) if (vi + k) % 8 == 0 else ir.SequenceType(ir.TensorType(dt), denotation="SEQ")
-    # device configurations (serialized from IR version 11 on)
-    if k % 2 == 0:
-        cfg = model.add_device_configuration("mesh", num_devices=2, device_names=("d0", "d1"))
-        for n in g:
-            cand = [v for v in list(n.outputs) + [x for x in n.inputs if x is not None] if v.name]
-            if not cand:
-                continue
-            v = cand[0]
-            try:
-                if v.shape is not None and len(v.shape) >= 1:
-                    n.shard(v, configuration=cfg, axis=0, num_shards=2, device_indices=(0, 1), pipeline_stage=1)
-                else:
-                    n.set_pipeline_stage(cfg, 1)
-            except Exception:  # noqa: BLE001 - an annotation the library refuses is simply not made
-                pass
-            break
+    _decorate_devices(model, (k // 6) % 8)
     return model
 
 
@@ -522,17 +578,33 @@ class Projector:
         }
 
 
-def project_graph(g) -> dict:
+def _ndc(n, vid) -> list:
+    """A node's device configurations in the shape of SerdeIR!NodeDc."""
+    out = []
+    for dc in n.device_configurations:
+        out.append({"cfg": NONAME if dc.configuration is None else dc.configuration.name,
+                    "stage": -1 if dc.pipeline_stage is None else dc.pipeline_stage,
+                    "specs": [{"v": vid(sp.value),
+                               "axes": [[d.axis] + [sh.num_shards for sh in d.simple_shardings] for d in sp.sharded_dims],
+                               "devs": list(sp.device)} for sp in dc.sharding_specs]})
+    return out
+
+
+def project_graph(g, with_dc=True) -> dict:
     p = Projector()
     root = p.add_graph(g)
+    ndc = [(_ndc(n, p.vid) if with_dc else []) for n in list(p.nodes)]      # before state(): may number placeholder values
     st = p.state()
+    st["ndc"] = ndc
     st["root"] = root
     return st
 
 
-def universe_state(u: SerdeUniverse) -> dict:
-    """The original in the same shape (ids as in the specification), with node names."""
+def universe_state(u: SerdeUniverse, with_dc=True) -> dict:
+    """The original in the same shape (ids as in the specification), with node names and device configurations
+    (with_dc False below IR version 11, where they are not serialized)."""
     st = u.project_s()
+    st["ndc"] = [(_ndc(n, u.vid) if with_dc else []) for n in u.nodes]
     st["s"] = {k: v for k, v in st["s"].items() if k not in ("nGraph", "vProd")}
     st["nName"] = [_sn(n.name) for n in u.nodes]
     st.pop("mt", None)
@@ -664,10 +736,13 @@ def leaf_diff(m1: ir.Model, m2: ir.Model) -> list:
         _cmp(diffs, "model.device_configurations", [(c.name, c.num_devices, tuple(c.device_names)) for c in m1.device_configurations],
              [(c.name, c.num_devices, tuple(c.device_names)) for c in m2.device_configurations])
         # node annotations resolve to the registered configuration objects
-        regs = {id(c) for c in m2.device_configurations}
-        for n in m2.graph.all_nodes():
+        regs = {c.name: id(c) for c in m2.device_configurations}
+        nodes2 = list(m2.graph.all_nodes())
+        for f in m2.functions.values():
+            nodes2.extend(f.all_nodes())
+        for n in nodes2:
             for dc in n.device_configurations:
-                if dc.configuration is not None and id(dc.configuration) not in regs:
+                if dc.configuration is not None and dc.configuration.name in regs and id(dc.configuration) != regs[dc.configuration.name]:
                     _cmp(diffs, "node.device_configuration.unresolved", dc.configuration.name, None)
     _cmp(diffs, "functions.keys", list(m1.functions), list(m2.functions))
     _graph_leaf_diff(diffs, "", m1.graph, m2.graph, devcfg)
@@ -708,7 +783,7 @@ def run_state(rec: dict, k: int) -> dict:
     model = decorate(u, k)
     fl["ir_version"] = model.ir_version
     fl["nfunc"] = len(model.functions)
-    orig = universe_state(u)
+    orig = universe_state(u, with_dc=model.ir_version >= 11)
     snap0 = deep_snapshot(u, model)
     p1 = p2 = None
     try:
@@ -770,7 +845,8 @@ def run_state(rec: dict, k: int) -> dict:
         except Exception as e:  # noqa: BLE001
             res["leaf"] = [{"what": "leaf-comparison-raised", "orig": type(e).__name__ + ": " + str(e)[:200], "deser": ""}]
         for fi, (f1, f2) in enumerate(zip(model.functions.values(), m2.functions.values())):
-            res["pairs"].append({"id": k, "kind": "function", "fn": fi, "orig": project_graph(f1.graph), "deser": project_graph(f2.graph)})
+            res["pairs"].append({"id": k, "kind": "function", "fn": fi, "orig": project_graph(f1.graph, with_dc=model.ir_version >= 11),
+                                     "deser": project_graph(f2.graph)})
     return res
 
 
@@ -795,19 +871,37 @@ def _work(args):
     return results, pairs
 
 
+def _keys(lines):
+    out = []
+    for line in lines:
+        try:
+            rec = json.loads(json.loads(line))
+            out.append((hashlib.sha1(json.dumps(shown_of_spec(rec["st"]), sort_keys=True).encode()).hexdigest(), len(rec["h"])))
+        except (ValueError, KeyError):
+            out.append(("", 0))
+    return out
+
+
 def replay_file(path, nproc=16, chunk=48, stride=1, offset=0, limit=None):
-    """Execute the emitted states (every stride-th, starting at offset); the record number is the state's id."""
-    lines, ids = [], []
+    """Execute the emitted states.  The records are first put in an order that depends only on the SET of emitted
+    states (hash of the state, then history length), never on the order in which TLC's workers happened to print
+    them; a state's id (which also selects its decoration) is its rank in that order, and the sample is every
+    stride-th id starting at offset."""
     with open(path, "r", errors="replace") as f:
-        for i, line in enumerate(x for x in f if x.startswith('"')):
-            if i % stride == offset:
-                lines.append(line)
-                ids.append(i)
+        raw = [x for x in f if x.startswith('"')]
+    with mp.get_context("fork").Pool(nproc) as pool:
+        keys = [k for ks in pool.imap(_keys, [raw[i:i + 512] for i in range(0, len(raw), 512)]) for k in ks]
+        order = sorted(range(len(raw)), key=lambda i: (keys[i], raw[i]))
+        lines, ids = [], []
+        for rank, i in enumerate(order):
+            if rank % stride == offset:
+                lines.append(raw[i])
+                ids.append(rank)
             if limit and len(lines) >= limit:
                 break
-    jobs = [(lines[i:i + chunk], ids[i:i + chunk]) for i in range(0, len(lines), chunk)]
-    results, pairs = [], []
-    with mp.get_context("fork").Pool(nproc) as pool:
+        del raw
+        jobs = [(lines[i:i + chunk], ids[i:i + chunk]) for i in range(0, len(lines), chunk)]
+        results, pairs = [], []
         for rs, ps in pool.imap_unordered(_work, jobs):
             results.extend(rs)
             pairs.extend(ps)
